@@ -143,3 +143,10 @@ Record exactly_once (L : list event) : Prop := {
 
 (* nothing stays alive: every initialised token has its (one, later) Fini *)
 Definition all_finalised (L : list event) : Prop := forall t, n_init t L = n_fini t L.
+
+(* the events of copy constructing the elements [srcs] one by one, first new token n0 (chronological) *)
+Fixpoint copy_events (n0 : nat) (srcs : list nat) : list event :=
+  match srcs with
+  | [] => []
+  | s :: r => EInit n0 (Some s) :: copy_events (S n0) r
+  end.
